@@ -14,6 +14,7 @@ IMPORTS = RUN = CASE_TYPE = None
 
 PLACEMENTS = ["root", "sub", "subsub", "item0", "item2", "item-sub"]
 ORIGINS = ["default", "assigned", "loaded", "absent"]
+ODD_KEYS = ["%s", "100%", "%(a)s", "%d%%", "k" * 200, (1, 2), (1,), (), ("a",), 7, None]
 ROUTES = ["entry", "update", "update-kw", "setdefault", "ior", "assign", "ctor", "load_tree", "loads-json", "list-assign", "list-load"]
 
 
@@ -23,9 +24,16 @@ def generate(rng, tier):
         for orig in ORIGINS:
             for route in ROUTES:
                 cases.append({"placement": pl, "origin": orig, "route": route, "key": "mem", "bad": "lots", "kind": "matrix"})
+    # keys of every kind str() has to render inside the path: % characters, tuples (a refused KEY for the string key field)
+    for n, key in enumerate(ODD_KEYS):
+        for route in ROUTES:
+            if route.startswith("list-"):
+                continue
+            cases.append({"placement": PLACEMENTS[n % len(PLACEMENTS)], "origin": ORIGINS[(n + len(route)) % len(ORIGINS)], "route": route,
+                          "key": key, "bad": "lots", "kind": "odd-key"})
     for _ in range(150 if tier == "quick" else 3000):
         cases.append({"placement": rng.choice(PLACEMENTS), "origin": rng.choice(ORIGINS), "route": rng.choice(ROUTES),
-                      "key": rng.choice(["mem", "cpu", "a_b", "k9"]), "bad": rng.choice(["lots", None, [1], {"x": 1}, 1e3, -1, 101, float("inf")]),
+                      "key": rng.choice(["mem", "cpu", "a_b", "k9"] + ODD_KEYS), "bad": rng.choice(["lots", None, [1], {"x": 1}, 1e3, -1, 101, float("inf")]),
                       "kind": "random"})
     return cases
 
@@ -98,6 +106,8 @@ def impl(c):
         elif c["origin"] == "absent" and c["route"] in ("entry", "update", "update-kw", "setdefault", "ior"):
             setattr(tgt, field, {})
         route = c["route"]
+        if not isinstance(key, str) and route in ("update-kw", "loads-json"):
+            route = {"update-kw": "update", "loads-json": "load_tree"}[route]     # these two carry string keys only
         try:
             if route == "entry":
                 getattr(tgt, field)[key] = bad
